@@ -797,7 +797,26 @@ impl<P: SizedPayload> St<P> {
             }
         }
         let clones_before = tok::clones();
-        let (how, eff) = match &mut self.slots[i].h {
+        // while the payload's Clone::clone runs inside make_mut, the OTHER owners of the old allocation must read the
+        // count the model has: the handle being detached still owns it, nothing more (a copy-on-write that clones
+        // the handle first shows one owner too many to a payload that looks at its own count while cloning)
+        let wrong_during_clone: std::cell::Cell<Option<(usize, usize)>> = std::cell::Cell::new(None);
+        let (left, right) = self.slots.split_at_mut(i);
+        let (mid, right) = right.split_at_mut(1);
+        let others: Vec<&Slot<P>> = left.iter().chain(right.iter()).filter(|sl| sl.alloc == ai).collect();
+        let owners_now = owners as usize;
+        let obs = |what: &'static str| {
+            if what == "clone" {
+                for sl in &others {
+                    for (_n, cnt) in counts(&sl.h) {
+                        if cnt != owners_now && wrong_during_clone.get().is_none() {
+                            wrong_during_clone.set(Some((cnt, owners_now)));
+                        }
+                    }
+                }
+            }
+        };
+        let (how, eff) = tok::with_observer(&obs, || match &mut mid[0].h {
             H::Arc(a) => {
                 if pick(b, 2) == 0 {
                     let (_, e) = track(|| Arc::make_mut(a).setp(newv));
@@ -820,7 +839,11 @@ impl<P: SizedPayload> St<P> {
                 ("UniqueArc::deref_mut", e)
             }
             _ => unreachable!(),
-        };
+        });
+        drop(others);
+        if let Some((seen, want)) = wrong_during_clone.get() {
+            viol::report(&["C04", "C08"], "N.count-during-clone", format!("{}: while the payload's Clone::clone ran, another owner of the allocation being detached saw count {} but {} owning handles exist", how, seen, want));
+        }
         let clones = tok::clones() - clones_before;
         let p = peek(&self.slots[i].h);
         let da = data_addr(&self.slots[i].h);
